@@ -91,6 +91,9 @@ Qed.
 Lemma X0_good : good X0 (fun _ => 0) ex_le_before.
 Proof.
   split; [exact X0_ext|]. constructor; intros; try reflexivity.
+  - unfold is_in, COMM_OPS in H. cbn [existsb] in H.
+    repeat (apply orb_true_iff in H; destruct H as [H|H]; [apply seqb_eq in H; subst op; try reflexivity|]); try discriminate.
+    unfold X0. cbn. f_equal. f_equal. lia.
   - destruct s; try discriminate; cbn [store_op X0]; cbn.
     + replace (p + i - p) with i by lia. apply Z.mod_small. apply enc_byte_range.
     + apply Z.mod_small. assumption.
